@@ -10,8 +10,14 @@ Cases / observations are plain JSON values; `*_to_coq` helpers render the shared
 Call format (both drivers):
     ['acq', o, mode, blk, tm, poll, skip]   mode in plain|ctx|with; tm None | -1 | ticks>=0
     ['rel', o, force]
+    ['del', o]                              C02 only: the calling thread drops the object (-> __del__ ->
+                                            release(force=True)); a fresh object with the same configuration
+                                            takes its place.  Model: CRel o true.
 """
 from __future__ import annotations
+
+import gc
+import weakref
 
 from . import gate
 from . import common as C
@@ -36,6 +42,13 @@ class Caller:
         self.locks = locks
         self.cms = {}            # (t, o) -> stack of ('ctx', cm) | ('with', lock)
         self.keep = []           # keeps generator context managers alive until teardown
+        self.nexit = 0           # every second context-manager exit leaves the block through an exception
+
+    def forget(self, o):
+        """Drop every context-manager record of object o (the object is being deleted)."""
+        for key in list(self.cms):
+            if key[1] == o:
+                self.cms[key].clear()
 
     def do(self, t, call):
         """Execute the call; returns the canonical result code."""
@@ -62,7 +75,13 @@ class Caller:
                 return RES.get(lk.release(force=True), 'EX')
             if st:
                 _kind, cm = st.pop()
-                r = cm.__exit__(None, None, None)       # contextmanager: False, FileLock: None
+                self.nexit += 1
+                if self.nexit % 2:
+                    r = cm.__exit__(None, None, None)       # contextmanager: False, FileLock: None
+                else:
+                    # the protected block raised: __exit__ / the generator's finally must do the same release()
+                    e = ValueError('harness: the with-block is left through an exception')
+                    r = cm.__exit__(ValueError, e, None)
                 return 'N' if (r is None or r is False) else 'EX'
             return RES.get(lk.release(), 'EX')
         except TimeoutError:
@@ -199,6 +218,8 @@ def call_coq(call):
     if call[0] == 'acq':
         _, o, mode, blk, tm, poll, skip = call
         return (f'(CAcq {o} {MODE_COQ[mode]} {C.coq_bool(blk)} {tmo_coq(tm)} {C.coq_N(poll)} {skip})')
+    if call[0] == 'del':
+        return f'(CRel {call[1]} true)'
     _, o, force = call
     return f'(CRel {o} {C.coq_bool(force)})'
 
@@ -289,15 +310,30 @@ def run_sched(case, chooser=None, want_choices=False):
                             i += 1 + call[6]
                     else:
                         lk = bool(locks[o].is_locked)
+                        force = True if call[0] == 'del' else call[2]
                         if lk:
                             was = sum(holds[t].values()) > 0
-                            if call[2]:
+                            if force:
                                 holds[t][o] = 0
                             elif holds[t].get(o, 0) > 0:
                                 holds[t][o] -= 1
                             if was and sum(holds[t].values()) == 0:
                                 occ.append([t, 0, ninside(), lk])
-                        results[t].append(caller.do(t, call))
+                        if call[0] == 'del':
+                            # the calling thread drops the last reference: __del__ -> release(force=True)
+                            # runs here, in this thread, through the same gates as a forced release
+                            caller.forget(o)
+                            ref = weakref.ref(locks[o])
+                            locks[o] = None
+                            if ref() is not None:
+                                gc.collect()
+                            if ref() is not None:
+                                env.kernel_mismatch.append(('del-not-collected', o))
+                            reent, dflt = case['objs'][o]
+                            locks[o] = F.FileLock(env.path, timeout=(-1 if dflt < 0 else dflt * TICK), reentrant=bool(reent))
+                            results[t].append('N')
+                        else:
+                            results[t].append(caller.do(t, call))
                         i += 1
             return body
 
